@@ -346,6 +346,12 @@ func init() {
 			wg.Add(1)
 			go func() {
 				defer wg.Done()
+				defer func() {
+					// a panic inside the sanitizer (two goroutines in one pooled buffer) is an observation, not a crash of the harness
+					if e := recover(); e != nil {
+						results[g] = append(results[g], res{"PANIC: " + fmt.Sprint(e), ""})
+					}
+				}()
 				for i := 0; i < 4000; i++ {
 					in := fmt.Sprintf("g%d!i%d!%s", g, i, "pad ding"[:1+i%8])
 					want := ""
